@@ -9,5 +9,9 @@ check("C02", "exploration",
       "Identity oracle (returned line == typed text, err == nil) over thousands of PRNG-determined printable strings from six rune classes, both modes, all meta settings for ASCII and the UTF-8 settings for non-ASCII, delivered whole / per rune / per byte / at random cuts.",
       TCB, "runtime monitoring: identity oracle on real Readline sessions", "DESIGN.md 5 C02")
 
+check("C03", "exploration",
+      "Reference-model monitor: probe commands bound to generated overlapping bind tables (incl. macros) in an emptied main keymap; the probe invocation log (which binding, at which delivered chunk) must equal an independent longest-match dispatcher on thousands of (table, input, chunking) triples.",
+      TCB + " Inputs whose expected behaviour the statement leaves open are skipped and counted.", "runtime monitoring: reference dispatcher vs probe-command invocation log", "DESIGN.md 5 C03")
+
 for _p in ["C03","C04","C05","C06","C07","C08","C09","C10","C11","C12","C13","C14","C15","C16","C17","C18","C19","C20"]:
     NOT_YET[_p] = "check under construction in this session (runtime monitor designed in DESIGN.md section 5, not yet registered)"
